@@ -2022,7 +2022,11 @@ class _Gen:
                 [(Fraction(1, 2), 0), (Fraction(1, 2), 0), (Fraction(-1, 2), 0), (0, Fraction(1, 2))],
                 [(0, 0), (1, 0), (0, 0), (0, 0)], [(Fraction(4, 5), 0), (0, 0), (0, 0), (Fraction(-3, 5), 0)],
                 [(Fraction(1, 2), 0)] * 4 + [(0, 0)] * 4,
-                [(0, 0)] * 7 + [(0, -1)]]
+                [(0, 0)] * 7 + [(0, -1)],
+                # components far below every tolerance but NOT zero (a reader that "cleans up" tiny amplitudes in place changes them)
+                [(1, 0), (Fraction(3, 10 ** 13), 0)], [(0, 0), (0, 1), (Fraction(1, 10 ** 17), 0), (0, Fraction(-1, 10 ** 20))],
+                [(Fraction(4, 5), 0), (Fraction(5, 10 ** 301), 0), (0, 0), (Fraction(-3, 5), 0)],
+                [(Fraction(1, 10 ** 9), 0), (Fraction(3, 5), 0), (0, Fraction(4, 5)), (0, Fraction(1, 10 ** 12))]]
         bad = [[(Fraction(1, 2), 0), (Fraction(1, 2), 0)], [(1, 0), (0, 0), (0, 0)], [(1, 0), (1, 0)]]
         extra = {}
         if rng.random() < 0.4:
